@@ -180,6 +180,12 @@ func (e *Env) lookupPkgObj(pk *types.Package, name string, st *State) (SVal, boo
 		return constTerm(e.c, o)
 	case *types.Var:
 		hn := e.c.heapName("glob!"+sanitize(pk.Path()+"."+o.Name()), e.c.sortOf(o.Type()))
+		if sp := e.c.prog.SSAPkgs[pk.Path()]; sp != nil && e.inSpec == nil {
+			if g := sp.Var(o.Name()); g != nil {
+				e.c.globalLoc(g)
+				e.c.assumeGlobalFacts(st, hn)
+			}
+		}
 		return SVal{T: e.heap(st, hn), Type: o.Type()}, true
 	}
 	return SVal{}, false
@@ -392,11 +398,11 @@ func (e *Env) evalSel(n *ESel) SVal {
 	switch n.Name {
 	case "val":
 		if isPtrTo(x.Type, isBigInt) {
-			return SVal{T: tSelect(e.heap(e.cur, c.bigvalName()), x.T)}
+			return SVal{T: c.sel(e.heap(e.cur, c.bigvalName()), x.T)}
 		}
 	case "real":
 		if isPtrTo(x.Type, isBigFloat) {
-			return SVal{T: tSelect(e.heap(e.cur, c.realvalName()), x.T)}
+			return SVal{T: c.sel(e.heap(e.cur, c.realvalName()), x.T)}
 		}
 	}
 	path, _, ok := fieldPath(x.Type, n.Name)
@@ -416,7 +422,13 @@ func (e *Env) selectField(x SVal, fi int) SVal {
 	if p, ok := t.Underlying().(*types.Pointer); ok {
 		st := p.Elem()
 		u := st.Underlying().(*types.Struct)
-		return SVal{T: tSelect(e.heap(e.cur, c.fieldArrayName(st, fi)), x.T), Type: u.Field(fi).Type()}
+		fn := c.fieldArrayName(st, fi)
+		res := c.sel(e.heap(e.cur, fn), x.T)
+		if e.inSpec == nil && e.cur != nil {
+			c.bornNow(res)
+			c.assumeLoadedRef(e.cur, fn, u.Field(fi).Type(), res)
+		}
+		return SVal{T: res, Type: u.Field(fi).Type()}
 	}
 	u, ok := t.Underlying().(*types.Struct)
 	if !ok {
@@ -482,7 +494,7 @@ func (e *Env) evalCall(n *ECall) SVal {
 			_, _, cn := c.mapNames(u)
 			return SVal{T: tSelect(e.heap(e.cur, cn), x.T)}
 		case *types.Basic:
-			return SVal{T: app(SInt, "str.len", x.T)}
+			return SVal{T: app(SInt, "gstr.len", x.T)}
 		case *types.Array:
 			return SVal{T: intLit(u.Len())}
 		}
